@@ -21,16 +21,22 @@ theorem resolveInt_ref_found (sc : Scope) (n : String) (vr : UValueReference) (i
 
 theorem resolveSizeVal_ref_found (sc : Scope) (n : String) (vr : UValueReference) (i : Int)
     (h : sc.valueReference n = .ok (some vr)) (hv : vr.value = .integer i) :
-    sc.resolveSizeVal (.ref n) = .ok (i64AsUsize i) := by
-  simp [Scope.resolveSizeVal, h, hv, LiteralValue.toInteger]
+    sc.resolveSizeVal (.ref n) =
+      (match usizeTryFrom i with
+       | some k => .ok k
+       | none => .error .failedToResolveReference) := by
+  simp only [Scope.resolveSizeVal, h, hv, LiteralValue.toInteger, bind, Except.bind]
+  cases usizeTryFrom i <;> rfl
 
 theorem resolveConst_ref_found (sc : Scope) (n : String) (vr : UValueReference)
     (h : sc.valueReference n = .ok (some vr)) : sc.resolveConst (.ref n) = .ok vr.value := by
   simp [Scope.resolveConst, h]
 
-theorem i64AsUsize_nonneg (i : Int) (h0 : 0 ≤ i) (h1 : i < 2 ^ 63) : i64AsUsize i = i.toNat := by
-  unfold i64AsUsize
-  rw [Int.emod_eq_of_lt h0 (by omega)]
+theorem usizeTryFrom_nonneg (i : Int) (h0 : 0 ≤ i) : usizeTryFrom i = some i.toNat := by
+  simp [usizeTryFrom, h0]
+
+theorem usizeTryFrom_neg (i : Int) (h0 : i < 0) : usizeTryFrom i = none := by
+  simp [usizeTryFrom]; omega
 
 /-! ### leaves -/
 
@@ -47,7 +53,7 @@ theorem resolveInt_subst (sc : Scope) (σ : Sigma) (ha : Agrees sc σ) (l : URan
       rfl
     · rfl
 
-theorem resolveSizeVal_subst (sc : Scope) (σ : Sigma) (ha : Agrees sc σ) (h64 : SigmaI64 σ)
+theorem resolveSizeVal_subst (sc : Scope) (σ : Sigma) (ha : Agrees sc σ)
     (a : USz) : sc.resolveSizeVal (substSizeAtom σ a) = sc.resolveSizeVal a := by
   cases a with
   | lit i => rfl
@@ -58,7 +64,7 @@ theorem resolveSizeVal_subst (sc : Scope) (σ : Sigma) (ha : Agrees sc σ) (h64 
       obtain ⟨vr, hvr, hv⟩ := ha n _ hσ
       split
       · rename_i h0
-        rw [resolveSizeVal_ref_found sc n vr i hvr hv, i64AsUsize_nonneg i h0 (h64 n i hσ)]
+        rw [resolveSizeVal_ref_found sc n vr i hvr hv, usizeTryFrom_nonneg i h0]
         rfl
       · rfl
     · rfl
@@ -75,9 +81,9 @@ theorem resolveRange_subst (sc : Scope) (σ : Sigma) (ha : Agrees sc σ) (r : Ra
   simp [Scope.resolveRange, substRange, resolveOptInt_subst sc σ ha]
 
 /-- SIZE constraints -/
-theorem resolveSize_subst (sc : Scope) (σ : Sigma) (ha : Agrees sc σ) (h64 : SigmaI64 σ)
+theorem resolveSize_subst (sc : Scope) (σ : Sigma) (ha : Agrees sc σ)
     (s : Size USz) : sc.resolveSize (substSize σ s) = sc.resolveSize s := by
-  cases s <;> simp [Scope.resolveSize, substSize, resolveSizeVal_subst sc σ ha h64]
+  cases s <;> simp [Scope.resolveSize, substSize, resolveSizeVal_subst sc σ ha]
 
 /-- DEFAULT values -/
 theorem resolveDefault_subst (sc : Scope) (σ : Sigma) (ha : Agrees sc σ) (ty : RTy) (uty : UTy)
@@ -100,13 +106,11 @@ theorem resolveDefault_subst (sc : Scope) (σ : Sigma) (ha : Agrees sc σ) (ty :
         simp only [DefaultSafe] at hsafe
         simp only [Scope.resolveDefault]
         split at hsafe
-        · exact absurd hsafe id
         · rename_i e he
           rw [he]
           simp only [hsafe, hconst]
-        · rename_i h1 h2
+        · rename_i h2
           split
-          · rename_i h3; exact absurd h3 h1
           · rename_i e h3; exact absurd h3 (h2 e)
           · exact hconst.symm
       | _ => simp only [Scope.resolveDefault, hconst]
